@@ -27,6 +27,9 @@ TEXTS = [b'', b'a', b'b', b'aa', b'ab', b'a/b', b'text/plain', b' a/b', b'a/b ',
          # from their byte order (U+FF21 + '1' vs U+1F600)
          b'Application/EDI-X12', b'TEXT/Plain', b'A/B', b'1', b'2', b'4', b'60', b'-7', b'+1', b'007', b'0', '\u20ac/b'.encode(), '\u00e9\u00e9/b'.encode(), 'a/\u20ac'.encode(),
          '\uff211'.encode(), '\U0001f600'.encode(), '\u00e9/\u00e9/\u00e9'.encode(), b'Zz', b'zZ']
+# look-alikes of the solidus and of white space inside an otherwise ordinary content type, a back-slash, padded forms (a built header may
+# hold any text; informed round 10: the separator count extended to U+2215, trimming at encode time)
+TEXTS += ['a/b\u2215c'.encode(), 'a\u2215b'.encode(), 'a\u2044b/c'.encode(), 'a\uff0fb'.encode(), b'a\\b/c', b'text/plain ', b'\ttext/plain', 'a/b\u3000'.encode(), b'a/b;q=1', b'/', b'a/', b'/b']
 
 class T(cosegen.G):
     """typed in-memory values as text forms"""
